@@ -15,6 +15,8 @@ Definition DMP_RANGE_EQUAL : N := 2.
 Definition E131_PREVIEW_DATA_MASK : N := 128.
 Definition E131_STREAM_TERMINATED_MASK : N := 64.
 Definition VECTOR_E131_DATA : N := 2.
+Definition VECTOR_ROOT_E131 : N := 4.
+Definition VECTOR_ROOT_E131_REV2 : N := 3.
 Definition ARTNET_MAX_MERGE_SOURCES : N := 2.
 Definition ARTNET_MERGE_TIMEOUT : N := 10.
 Definition ARTNET_MAX_PORTS : N := 4.
